@@ -89,7 +89,7 @@ func init() {
 		"that the passes compute the right strings (single line, RE2-parsable, \\s always together with \\x0b, no inline flag group surviving): value-level facts about text produced by a third-party optimiser.",
 		nil,
 		func(c *Ctx, tier string) []*Result {
-			return []*Result{c.RuleEscParity(), c.RuleFlagSet(), inPkg(c.RuleMapOrder(), 1, "regex/operators"), c.RuleSanitize(), c.RuleTemplate(c.cmdFns("update")), c.RuleEscMatch()}
+			return []*Result{c.RuleEscParity(), c.RuleFlagSet(), inPkg(c.RuleMapOrder(), 1, "regex/operators"), c.RuleSanitize(), c.RuleTemplate(c.cmdFns("update")), c.RuleEscMatch(), c.RuleFlagPattern(), c.RuleLogStderr(), inFns(c.RuleRxRebuild(), c.cmdFns("update"), 1)}
 		})
 
 	prop("C03", "other",
@@ -98,7 +98,7 @@ func init() {
 		"determinism of the dependencies (rassemble-go, regexp, sort, mergo on map[string]string) is assumed; determinism of the exit status under I/O faults is not examined.",
 		[]string{"rassemble-go v0.1.2, regexp, sort and mergo (for map[string]string) are deterministic"},
 		func(c *Ctx, tier string) []*Result {
-			return []*Result{c.RuleMapOrder(), c.RuleRxDisjoint(tier == "thorough"), c.RuleDefFragment(), c.RuleNondetSrc([]string{"generate", "update", "compare", "format"})}
+			return []*Result{c.RuleMapOrder(), c.RuleRxDisjoint(tier == "thorough"), c.RuleDefFragment(), c.RuleNondetSrc([]string{"generate", "update", "compare", "format"}), c.RuleOrderKey(), c.RuleSuffixOps(), c.RuleIsoGlobal("unit:(*regex/operators.Operator).Run")}
 		})
 
 	prop("C05", "other",
@@ -108,7 +108,7 @@ func init() {
 		nil,
 		func(c *Ctx, tier string) []*Result {
 			drop, handle := c.RuleErrCached()
-			return []*Result{c.RuleIsoOwner(), c.RuleFlagsReject(), keyHas(c.RuleIsoFresh(), 2, ":regex/parser."),
+			return []*Result{c.RuleIsoOwner(), c.RuleFlagsReject(), keyHas(c.RuleIsoFresh(), 2, ":regex/parser."), c.RuleIsoGlobal("unit:(*regex/operators.Operator).Run"),
 				inPkg(drop, 3, "regex/parser"), inPkg(handle, 3, "regex/parser")}
 		})
 
@@ -119,7 +119,7 @@ func init() {
 		nil,
 		func(c *Ctx, tier string) []*Result {
 			return []*Result{inPkg(c.RuleMapOrder(), 2, "regex/parser"), c.RuleOrderKey(),
-				inPkg(c.RuleRxGroups(), 1, "regex/parser"), inPkg(c.RuleScanErr(), 3, "regex/parser"), c.RuleSuffixOps()}
+				inPkg(c.RuleRxGroups(), 1, "regex/parser"), inPkg(c.RuleScanErr(), 3, "regex/parser"), c.RuleSuffixOps(), c.RuleExclKey(), c.RuleIsoGlobal("unit:(*regex/operators.Operator).Run")}
 		})
 
 	prop("C07", "other",
@@ -130,7 +130,7 @@ func init() {
 		func(c *Ctx, tier string) []*Result {
 			// every map iteration of the parser package except the ones that belong to C03/C06 alone
 			mo := inPkg(c.RuleMapOrder(), 1, "regex/parser")
-			return []*Result{c.RuleDefFragment(), mo, c.RuleIsoOwner()}
+			return []*Result{c.RuleDefFragment(), mo, c.RuleIsoOwner(), keyHas(c.RuleRxDisjoint(false), 1, ":line handed to ")}
 		})
 
 	prop("C08", "other",
@@ -139,7 +139,7 @@ func init() {
 		"byte equality of the reports (the compare summary lines are value-level).",
 		nil,
 		func(c *Ctx, tier string) []*Result {
-			return []*Result{c.RuleIsoFresh(), c.RuleIsoGlobal("update", "compare", "format"), c.RuleSiblingRuleId(), c.RuleWalkSkip()}
+			return []*Result{c.RuleIsoFresh(), c.RuleIsoGlobal("update", "compare", "format"), c.RuleSiblingRuleId(), c.RuleWalkSkip(), c.RuleWalkFilter("update", "compare", "format")}
 		})
 
 	prop("C09", "other",
@@ -149,7 +149,7 @@ func init() {
 		nil,
 		func(c *Ctx, tier string) []*Result {
 			return []*Result{keyHas(c.RuleFsGuard([]string{"format"}), 1, "cmd format"), c.RuleFsSame([]string{"format"}),
-				inFns(c.RuleErrFlags(), c.cmdFns("format"), 0), keyHas(c.RuleFsAlways([]string{"format"}), 1, "cmd format")}
+				inFns(c.RuleErrFlags(), c.cmdFns("format"), 0), keyHas(c.RuleFsAlways([]string{"format"}), 1, "cmd format"), inFns(c.RuleFsWriteDiscipline(), c.cmdFns("format"), 1), c.RuleFormatOnly()}
 		})
 
 	prop("C10", "other",
@@ -162,7 +162,7 @@ func init() {
 			drop, handle := c.RuleErrCached()
 			_ = drop
 			return []*Result{inFns(c.RuleRxRebuild(), fmtFns, 7), c.RuleRxDisjoint(tier == "thorough"), inFns(c.RuleRxGroups(), fmtFns, 7),
-				inFns(handle, fmtFns, 2), inFns(c.RuleErrLog(), fmtFns, 2), c.RuleFormatOnly()}
+				inFns(handle, fmtFns, 2), inFns(c.RuleErrLog(), fmtFns, 2), c.RuleFormatOnly(), inFns(c.RuleFsWriteDiscipline(), fmtFns, 1), c.RulePrintfConst()}
 		})
 
 	prop("C11", "other",
@@ -173,7 +173,7 @@ func init() {
 		func(c *Ctx, tier string) []*Result {
 			upd := c.cmdFns("update")
 			return []*Result{keyHas(c.RuleFsTarget([]string{"update"}), 1, "cmd update"), c.RuleSplitJoinFrame(), inFns(c.RuleRxRebuild(), upd, 1),
-				inFns(c.RuleValidate(), upd, 1), c.RuleTemplate(upd)}
+				inFns(c.RuleValidate(), upd, 1), c.RuleTemplate(upd), inFns(c.RuleFsWriteDiscipline(), upd, 1), inFns(c.RuleResolve(), upd, 1), keyHas(c.RuleIsoFresh(), 1, "cmd update")}
 		})
 
 	prop("C12", "other",
@@ -187,7 +187,8 @@ func init() {
 				both[k] = true
 			}
 			return []*Result{c.RuleSiblingLocator(), c.RuleCompareVerdict(), keyHas(inFns(c.RuleRxGroups(), both, 2), 2, "regex.RuleRxRegex"),
-				inFns(c.RuleErrFlags(), c.cmdFns("compare"), 0), c.RuleTemplate(c.cmdFns("update")), inFns(c.RuleRxRebuild(), c.cmdFns("update"), 1)}
+				inFns(c.RuleErrFlags(), c.cmdFns("compare"), 0), c.RuleTemplate(c.cmdFns("update")), inFns(c.RuleRxRebuild(), c.cmdFns("update"), 1),
+				inFns(c.RuleNarrow(), both, 2), c.RuleSiblingRuleId(), c.RuleSplitJoinFrame(), c.RuleIsoGlobal("update", "compare")}
 		})
 
 	prop("C13", "other",
@@ -199,7 +200,7 @@ func init() {
 			return []*Result{keyHas(c.RuleFsGuard([]string{"renumber-tests"}), 1, "cmd renumber-tests"), c.RuleFsSame([]string{"renumber-tests"}),
 				keyHas(c.RuleFsTarget([]string{"renumber-tests"}), 1, "cmd renumber-tests"), inFns(c.RuleRxRebuild(), c.cmdFns("renumber-tests"), 2),
 				inFns(c.RuleScanErr(), c.cmdFns("renumber-tests"), 1), inFns(c.RuleRxGroups(), c.cmdFns("renumber-tests"), 3), c.RuleIsoGlobal("renumber-tests"),
-				inFns(c.RuleErrFlags(), c.cmdFns("renumber-tests"), 0), c.RuleFsAlways([]string{"renumber-tests"})}
+				inFns(c.RuleErrFlags(), c.cmdFns("renumber-tests"), 0), c.RuleFsAlways([]string{"renumber-tests"}), inFns(c.RuleFsWriteDiscipline(), c.cmdFns("renumber-tests"), 1), c.RuleWalkFilter("renumber-tests")}
 		})
 
 	prop("C14", "other",
@@ -209,7 +210,7 @@ func init() {
 		[]string{"semver.NewVersion accepts a subset of its anchored versionRegex (read from the library source in the module cache)", "the year is four digits (quantifier of C14; the command does not validate it)"},
 		func(c *Ctx, tier string) []*Result {
 			return []*Result{c.RuleRxIncl(), keyHas(c.RuleFsTarget([]string{"update-copyright"}), 1, "cmd update-copyright"), inFns(c.RuleScanErr(), c.cmdFns("update-copyright"), 1),
-				c.RuleFsAlways([]string{"update-copyright"}), c.RuleTemplate(c.cmdFns("update-copyright")), c.RuleIsoGlobal("update-copyright")}
+				c.RuleFsAlways([]string{"update-copyright"}), c.RuleTemplate(c.cmdFns("update-copyright")), c.RuleIsoGlobal("update-copyright"), inFns(c.RuleFsWriteDiscipline(), c.cmdFns("update-copyright"), 1), c.RuleWalkFilter("update-copyright")}
 		})
 
 	prop("C15", "other",
@@ -218,7 +219,7 @@ func init() {
 		"a user argument containing '..' joined below a context directory (hostile arguments are outside the quantifier); cobra's completion debug file, which only the hidden __complete command writes when BASH_COMP_DEBUG_FILE is set (reviewed exclusion, DESIGN.md).",
 		[]string{"third-party functions write only where the computed static closure (calls and function-value references inside the dependencies) says"},
 		func(c *Ctx, tier string) []*Result {
-			return []*Result{c.RuleFsWrite(), c.RuleFsGuard([]string{"format", "renumber-tests"}), c.RuleFsTarget([]string{"format", "update", "renumber-tests", "update-copyright", "self-update"})}
+			return []*Result{c.RuleFsWrite(), c.RuleFsGuard([]string{"format", "renumber-tests"}), c.RuleFsTarget([]string{"format", "update", "renumber-tests", "update-copyright", "self-update"}), c.RuleFsWriteDiscipline()}
 		})
 
 	prop("C18", "other",
@@ -236,7 +237,7 @@ func init() {
 		"absence of all runtime faults (about ninety compiler-unproven bounds checks remain unexamined) and termination.",
 		nil,
 		func(c *Ctx, tier string) []*Result {
-			return []*Result{c.RuleEscMatch(), c.RuleScanBound(), c.RuleRxGroups(), c.RuleIdxParam(), keyHas(c.RuleValidate(), 1, "odd-length")}
+			return []*Result{c.RuleEscMatch(), c.RuleScanBound(), c.RuleRxGroups(), c.RuleIdxParam(), keyHas(c.RuleValidate(), 1, "odd-length"), c.RulePrintfConst(), c.RuleLastIndex(), c.RuleDefFragment(), c.RuleRecBound()}
 		})
 
 	prop("C20", "other",
